@@ -524,6 +524,19 @@ class InterpCore(object):
         cx, cy = x.as_const(), y.as_const()
         if cx is not None and cy is not None:
             return {"Lt": cx < cy, "LtE": cx <= cy, "Gt": cx > cy, "GtE": cx >= cy}[opn]
+        # float('inf') / -float('inf') against anything finite (every other number of the analysis is finite)
+        def inf_sign(v):
+            if ep.equal(v, ep.sym("inf"))[0]:
+                return 1
+            if ep.equal(v, -ep.sym("inf"))[0]:
+                return -1
+            return 0
+        sx, sy = inf_sign(x), inf_sign(y)
+        if (sx or sy) and not (sx and sy) and not (x.depends_on("inf") and not sx) and not (y.depends_on("inf") and not sy):
+            big_left = (sx == 1) or (sy == -1)       # left operand is the larger one
+            return {"Lt": not big_left, "LtE": not big_left, "Gt": big_left, "GtE": big_left}[opn]
+        if sx and sy:
+            return {"Lt": sx < sy, "LtE": sx <= sy, "Gt": sx > sy, "GtE": sx >= sy}[opn]
         sym = {"Lt": "<", "LtE": "<=", "Gt": ">", "GtE": ">="}[opn]
         return Cond("cmp", sym, Num(x), Num(y))
 
